@@ -15,6 +15,21 @@ PROPS = {
                       "for replay only.",
     },
 }
+PROPS["C08"] = {
+    "units": ["contracts.c08_lists"],
+    "bounded": True,
+    "level": "proof",
+    "trusted_base": ["pyvc VC generator (/verif/pyvc)", "z3", "Python semantics as listed in DESIGN.md §2.3 (heap as field arrays, "
+                     "dataclass __init__/__eq__ generated from the decorator)"],
+    "level_text": "All 15 methods of DoublyLinkedList are verified in a field-array heap model against a ghost node sequence s (identities) with "
+                  "inverse index pos: the class invariant (head/tail/end links, elements distinct and non-null, prev/next mutually consistent, "
+                  "size == |s|) is preserved by every mutator and each mutator's s' equals the reference sequence operation; traversal yields s. "
+                  "Unbounded in list length and history; payloads are uninterpreted (identity-only), dataclass == is unfolded one level and "
+                  "must be decided by identity or a None/non-None link pair (structural-eq-bounded).",
+    "level_note": "Trusted: pyvc and its Python semantics, z3. Node arguments are required to belong to the list (precondition). Iterable arguments "
+                  "are finite sequences evaluated once. Bounded layer (histories <= 5/6 ops, equal and distinct payloads, 3000-equal-payload run) "
+                  "is a stand-in for replay only.",
+}
 
 # properties not claimed, with the reason (everything else not in PROPS gets the generic "not built yet" reason)
 NOT_APPLICABLE = {}
